@@ -8,7 +8,9 @@ import (
 	"context"
 	"errors"
 	"fmt"
+	"hash/fnv"
 	"log/slog"
+	"net"
 	"sort"
 	"sync"
 	"testing"
@@ -207,7 +209,17 @@ func newRig(key string) *channelRig {
 		r.peersSum += len(r.peers)
 		var ns []*memberlist.Node
 		for _, p := range r.peers {
-			ns = append(ns, &memberlist.Node{Name: p})
+			// memberlist.Members() lists every member that is not dead and has not left: a SUSPECT member (one probe
+			// cycle lost; it refutes the suspicion a moment later) is connected and is in the list. A third of the
+			// stub's members, chosen by name, are in that state; the fan-out owes them the update like any other.
+			st := memberlist.StateAlive
+			if h := fnv.New32a(); true {
+				h.Write([]byte(p))
+				if h.Sum32()%3 == 0 {
+					st = memberlist.StateSuspect
+				}
+			}
+			ns = append(ns, &memberlist.Node{Name: p, Addr: net.IPv4(127, 0, 0, 1), Port: 9094, State: st, PMax: 5, PCur: 2, DMax: 5, DCur: 4})
 		}
 		return ns
 	}
